@@ -1,5 +1,6 @@
 import Hyeong.Driver.OptOps
 import Hyeong.Model.Repl
+import Hyeong.Model.Debug
 /-! Driver: transcripts of the interactive interpreter (and later the debugger / CLI). -/
 namespace Drv
 open HyE HyP
@@ -12,5 +13,18 @@ def endStr : SessionEnd → String
 def replOp (script : String) : String :=
   let r := replSession (N := HyN.NumI) 200000 (decText script)
   s!"{encText r.1} {endStr r.2}"
+
+instance : ShowN HyN.NumI where
+  showN n := HyN.display n
+
+def dbgEndStr : DbgEnd → String
+  | .exit c => s!"exit {c}"
+  | .error e => "error " ++ stopStr e
+  | .crash w => "crash " ++ w.replace " " "_"
+  | .hang => "hang"
+
+def debugOp (path fname src script : String) : String :=
+  let r := debugSession (N := HyN.NumI) 6000 (decText path) (decText fname) (decText src) (decText script)
+  s!"{encText r.1} {dbgEndStr r.2}"
 
 end Drv
